@@ -89,6 +89,22 @@ CHECKS = {
         'the length equals the simulator\'s fall-through PC advance and get_timing\'s value(s) are exactly the T-states the simulator closure can take (which member goes with which branch), for the plain simulator, and via C06/C19 for the contended and C ones. '
         'Operand formatting variants and rst_handler are outside the theorems (correspondence/e2e).',
    note=TB + 'data tables dumped by calling the real functions (translate/gen_c07.py), decode wrappers are hand models tied by exhaustive correspondence (122k cases/run)', ref='§8 C07'),
+ 'C05': dict(cat='proof', technique='Lean 4 refinement: the simulator model regenerated from simulator.py each run is proved equal, step for step and for every in-range state, to an independent ISA-level Z80 specification (algorithmic decoder + executable semantics); flag tables proved equal to a bit-level spec by kernel enumeration of all 1.05M entries; translator tie per slot + e2e spec-vs-four-simulators',
+   text='54 theorems: alu_<T>_correct for all 34 flag/result tables (every entry); dispatch_*_ok for all 1792 slots of the seven tables against the independent x/y/z/p/q decoder incl. IXh/IXl, SLL, DDCB register copies, ED duplicates (length, both T-state counts, M1 count); '
+        'closure_refines_spec for all 76 closures (16-bit ADD/ADC/SBC flags, block instructions, RLD/RRD, DAA by general bit lemmas); sim_refines_spec: RInv s -> Sim.step cfg s = Spec.step cfg s (full strength, 48K and 128K instances); run_refines_spec for any number of steps; '
+        'cmio_refines_spec (contended simulator equals the spec step except T, MEMPTR, F bits 5/3) and c_dispatch_ok (C tables, through C06). The C handler bodies are tied differentially only; block instructions are specified per iteration; BIT n,(HL) bits 5/3 follow the plain simulators.',
+   note=TB + 'generated Z80 model (py2lean translator validated per slot against all four real simulators each run) + independent spec Spec/Z80Isa, Z80Decode, Z80Sem, Z80Alu16 written from the Z80 manual; 1.19M real simtables entries compared with an independent Python oracle each run', ref='§8 C05'),
+ 'C10': dict(cat='proof', technique='Lean 4 theorems: per-closure frame-shift commutation and duration bounds generated from simulator.py/cmiosimulator.py each run, induction over the trace loops (Python next_int loop = stateless C loop), save/restore composition on hand models of the SZX/Z80 state path + model/implementation correspondence + e2e every split point on trace.py',
+   text='23 theorems: step and the whole trace loop (incl. accept_interrupt) commute with shifting T by whole frames, for every closure of both simulators; 0 <= dT <= 23 (plain) / 143 (contended); python_loop_eq_c_loop; the probed port is the port read; '
+        'restore_save_szx / restore_save_z80 (exact except the fields the Z80 format cannot carry); resume_transparent_szx (+python, +final_snapshot_equal) for plain and contended; resume_transparent_z80 for the plain simulator; '
+        'the full Z80 + contention statement is REFUTED (z80_cmio_full_false, z80_cmio_full_false_bit_hl: two known findings, the format has no field for HALT/MEMPTR) and resume_transparent_z80_cmio_partial holds outside exactly those situations. '
+        'Saveable at the split point = C08 range invariant + tracer ranges + intact ROM; RAM passes through the codecs as identity in the model (C09 proves the RLE lossless; zlib trusted); only the -m stop condition is modelled.',
+   note=TB + 'generated Z80 models + hand models Model/TraceLoop, SnapResume tied by correspondence (2.2k cases/run on all four simulators); two genuine defects found here were repaired (79dd3f6, ed16bf4)', ref='§8 C10'),
+ 'C13': dict(cat='proof', technique='Lean 4 theorems: DEC A hooks proved equal to 2*A steps of the generated Z80 model; closed-form tape-sampling fast-forward proved equal to iteration of the loop body; the ACCELERATORS table (dumped each run) kernel-checked against a static walk of the generated model + model/implementation correspondence on single load-loop iterations + e2e bit-identical snapshots over option grids',
+   text='23 theorems: dec_a_jr/jp_equiv and exit_is_first (the written state is runN (2A), PC never leaves the loop earlier); tsl_ffwd_equiv_inc/dec, tsl_loops_spec (maximal, no sample past the next edge, DEC counter 0 -> 0 loops), tsl_no_edge_skipped, tape_advance_composes; '
+        'accelerator_table_consistent (53 entries: loop_time, loop_r_inc, one IN, one INC/DEC of the counter), walk soundness, accelerator_loop_trip, tsl_real_loop_equals_iteration (closes accelerated -> real), accelerators_unambiguous, matchers_agree (Python slice vs C wrap-around). '
+        'Bit-identical snapshots across accelerator/dec-a/pause/python settings and the weak claim for fast-load/cmio are e2e on tap2sna with generated loaders for every recognised loop shape. One genuine defect was repaired (e618672, counter 0) and one is a known finding (negative first-edge, C raises).',
+   note=TB + 'generated Z80 model + hand models Model/LoadAccel, LoadTape, AccelWalk tied by correspondence (3k load-loop iterations/run on Python and C); the C load loop is tied differentially only', ref='§8 C13'),
 }
 NA = {}
 def main():
